@@ -113,7 +113,7 @@ func ipamRandomWalk(h *ipamHist) {
 		h.mon.mu.Lock()
 		defer h.mon.mu.Unlock()
 		var out []*ipamPod
-		for _, p := range h.mon.pods {
+		for _, p := range h.mon.byUID {
 			out = append(out, p)
 		}
 		sortPods(out)
@@ -123,8 +123,27 @@ func ipamRandomWalk(h *ipamHist) {
 		pods := livePods()
 		switch k := rng.Intn(100); {
 		case k < 22 && next < cfg.Pods:
-			p := h.newPod(next, cfg.ERDMA && rng.Intn(4) == 0)
-			next++
+			var p *ipamPod
+			var gone []*ipamPod
+			for _, q := range pods {
+				if !q.Exists {
+					gone = append(gone, q)
+				}
+			}
+			if len(gone) > 0 && rng.Intn(4) == 0 {
+				// recreated under the name of a pod that is gone (its sandbox may still be there)
+				q := gone[rng.Intn(len(gone))]
+				h.mon.mu.Lock()
+				cur := h.mon.pods["ns/"+q.Name]
+				h.mon.mu.Unlock()
+				if cur != nil && cur.Exists {
+					break
+				}
+				p = h.newPodNamed(q.Name, q.RDMA)
+			} else {
+				p = h.newPod(next, cfg.ERDMA && rng.Intn(4) == 0)
+				next++
+			}
 			switch rng.Intn(12) {
 			case 0:
 				p.Skip = "hostnet"
@@ -146,6 +165,9 @@ func ipamRandomWalk(h *ipamHist) {
 		case k < 78 && len(pods) > 0:
 			p := pods[rng.Intn(len(pods))]
 			if !p.Exists {
+				if p.Sandbox && rng.Intn(2) == 0 {
+					h.cniDel(p, p.Container) // the late DEL of a pod whose object is already gone
+				}
 				break
 			}
 			if rng.Intn(3) != 0 {
